@@ -31,6 +31,9 @@ M = {
         'objective coefficient not normalised by the basis domain size'),
  'M12': (MLP, "        g *= m.getDiscount() * v;", "        g *= v;", 'returned Q-function misses the discount'),
  'M13': (MLP, "        plusEqual(m.getS(), m.getA(), g, m.getRewardFunction());", "        if (m.getRewardFunction().bases.size() < 3) plusEqual(m.getS(), m.getA(), g, m.getRewardFunction());", 'returned Q-function drops R when the reward has >= 3 bases'),
+ 'N1': (MLP, "            lp.row[i] = h.bases[i].values.sum() / h.bases[i].values.size();", "            lp.row[i] = h.bases[i].values.sum() / h.bases[0].values.size();", 'objective: every basis mean normalised by the FIRST basis domain size'),
+ 'N2': (BN, "                for (size_t rId = 0; rDomain.isValid(); rDomain.advance(), ++rId)", "                for (size_t rId = 0; rDomain.isValid(); rDomain.advance(), ++rId) if (!(rhs.values.size() == 3 && rId == 0))", 'backProject skips the first value of a basis over one 3-valued factor'),
+ 'N3': (BN, "        return startIds_[feature][actionId] + parentId;", "        return startIds_[feature][actionId >= 2 ? actionId - 1 : actionId] + parentId;", 'DDNGraph::getId uses the previous block for joint parent actions >= 2'),
  'M9': (GVE, "            for (size_t vValue = 0; vValue < V[v]; ++vValue) {", "            for (size_t vValue = 0; vValue < std::min<size_t>(V[v], 2); ++vValue) {",
         'only the first two values of the eliminated variable are cross-summed (all unit-test factors are binary/ternary?)'),
 }
